@@ -45,6 +45,10 @@ pub(crate) struct DhtHandler {
     next_bootstrap_txs_id: u64,
     bootstrap_txs: HashMap<u64, oneshot::Sender<()>>,
 
+    // Lookups requested before the initial bootstrap has finished, started once it completes.
+    initial_bootstrap_done: bool,
+    pending_lookups: Vec<StartLookup>,
+
     // TableRefresh action.
     refresh: TableRefresh,
     // Ongoing TableLookups.
@@ -91,6 +95,8 @@ impl DhtHandler {
             bootstrap,
             next_bootstrap_txs_id: 0,
             bootstrap_txs: HashMap::new(),
+            initial_bootstrap_done: false,
+            pending_lookups: Vec::new(),
             refresh: table_refresh,
             lookups: HashMap::new(),
         }
@@ -415,12 +421,28 @@ impl DhtHandler {
             tx.send(()).unwrap_or(())
         }
 
+        // Start the lookups that were requested before the initial bootstrap has finished.
+        self.initial_bootstrap_done = true;
+        let pending_lookups = std::mem::take(&mut self.pending_lookups);
+        for lookup in pending_lookups {
+            self.start_lookup(lookup).await;
+        }
+
         // Start the refresh action.
         self.handle_check_table_refresh().await;
     }
 
     async fn handle_start_lookup(&mut self, lookup: StartLookup) {
-        // Start the lookup right now if not bootstrapping
+        // Queue the lookup if the initial bootstrap has not finished yet, it is started once it does.
+        if !self.initial_bootstrap_done && !self.is_bootstrapped() {
+            self.pending_lookups.push(lookup);
+            return;
+        }
+
+        self.start_lookup(lookup).await
+    }
+
+    async fn start_lookup(&mut self, lookup: StartLookup) {
         let mid_generator = self.aid_generator.generate();
         let action_id = mid_generator.action_id();
 
